@@ -361,9 +361,9 @@ def _run_sweep(ctx, progs, per):
     # two-step histories (replace an expression by a call, then edit a child of the new node), multi-byte text before the target
     res += pmap(co.two_step_cases, [(p, ctx.rng.randrange(1 << 30), max(3, per // 2)) for p in progs])
     # histories with trivia-changing accessors between cache-filling reads and structural edits of the enclosing blocks
-    res += pmap(co.history_cases, [(p, ctx.rng.randrange(1 << 30), max(2, per // 4)) for p in progs[:len(progs) * 2 // 3] + co.HAND_PROGRAMS])
+    res += pmap(co.history_cases, [(p, ctx.rng.randrange(1 << 30), max(2, per // 4)) for p in progs[:len(progs) * 2 // 3 if ctx.quick else len(progs) // 3] + co.HAND_PROGRAMS])
     # every trivia-related option through all three channels (per call / FST.options() / FST.set_options()): same outcome
-    res += pmap(co.channel_cases, [(p, ctx.rng.randrange(1 << 30), 1 if ctx.quick else 2) for p in progs[:len(progs) // 2] + co.HAND_PROGRAMS])
+    res += pmap(co.channel_cases, [(p, ctx.rng.randrange(1 << 30), 1 if ctx.quick else 2) for p in progs[:len(progs) // 2 if ctx.quick else len(progs) // 4] + co.HAND_PROGRAMS])
     n = 0
     for lst in res:
         for it in lst:
